@@ -123,7 +123,15 @@ def tsan_triage(report):
         acc = acc[:2]
         fns = []
         benign = len(acc) == 2
+        unknown_reads = 0
         for desc, frames in acc:
+            if not frames:
+                # "[failed to restore the stack]": the access itself is at the same address and size.
+                # A *read* cannot be free()/close(); it is a plain load of the same field the other side names.
+                if re.match(r"(Previous )?read of size", desc, re.I):
+                    unknown_reads += 1
+                    fns.append("?")
+                    continue
             fr = _first_repo_frame(frames)
             top = frames[0] if frames else None
             if top and top[0] in ("free", "close", "munmap", "operator delete", "realloc"):
@@ -139,6 +147,8 @@ def tsan_triage(report):
             # an access reported inside libc on behalf of the repo frame (memset/free) is not a plain load/store
             if top and common.REPO not in top[1]:
                 benign = False
+        if unknown_reads == 2:
+            benign = False
         def _responsible(frames):
             for fn, f, ln in frames:
                 if "libsanitizer" in f or f.startswith("../"):
